@@ -213,7 +213,7 @@ def g_vt(sn, tab):
                                                                   glist([hist.coerce_val(v) for v in r['dat']], gopt)))
 
 
-EMPTY_MAIN = '(mkcase (mkcfg true false false false false []) [] [] true 0 false)'
+EMPTY_MAIN = '(mkcase (mkcfg true false false false false []) [] [] true 0 false None)'
 EMPTY_RL = '(mkrl [] [] [] [])'
 
 
